@@ -224,12 +224,12 @@ def c18(tier):
 def c10(tier):
     t0 = time.time()
     cfgs = vec.ALIAS_QUICK + (vec.ALIAS_THOROUGH if tier == "thorough" else [])
-    cov, viols, inc = sets.run_engine("C10", tier, cfgs, 36, 36, extra_args=["--wide"] if tier == "thorough" else [], crash_owners=("C10",), any_prop=True)
+    cov, viols, inc = sets.run_engine("C10", tier, cfgs, 44, 44, extra_args=["--wide"] if tier == "thorough" else [], crash_owners=("C10",), any_prop=True)
     # the same aliased calls embedded in the random histories of the C01 engine
     c2, v2, i2 = _vec_fuzzed("C10", tier, hist_quick=120, hist_thorough=1200)
     cov = sets.merge_cov(cov, c2)
     cov["rule"] = ("complete small-scope grid: size 1..%d x position 0..size x source index x count 0..3 x spare capacity {natural/inline, heap full (must grow), "
-                   "exactly enough, more than enough} x 9 aliased call forms, per (flavour, N, element category, allocator) configuration, each judged against a "
+                   "exactly enough, more than enough} x 11 aliased call forms (incl. emplace from references to members of an element), per (flavour, N, element category, allocator) configuration, each judged against a "
                    "std::vector model fed with a copy of the element taken before the call; plus the aliased calls embedded in random histories. "
                    "distinct cell = (configuration, form, state class, source vs position, grows/fits)" % (12 if tier == "thorough" else 6))
     cov["exhaustive"] = not viols and not inc
